@@ -2254,54 +2254,54 @@ class PrepareAst:
             result_statements = []
             first_target = None
 
-            for item in items:
-                context_expr = self.apply(item.context_expr)
-                result_statements.append(context_expr)
-                context = context_expr.result()
-
-                if context is always:
-                    assert (
-                        self._context is ContextType.SEQUENTIAL
-                    ), "cohdl.always can only be used in cohdl.sequential contexts"
-                    assert (
-                        len(items) == 1
-                    ), "with statement containing cohdl.always context can only have a single item"
-                    assert (
-                        item.optional_vars is None
-                    ), "with statement containing cohdl.always can not define a target"
-
-                    always_block = self.convert_always_block(inp.body, inp.lineno)
-
-                    result_statements.append(always_block.code())
-
-                    for stmt in result_statements:
-                        assert (
-                            not stmt.returns()
-                        ), "cannot return from cohdl.always context"
-
-                    self.add_always_expr(out.CodeBlock(result_statements))
-                    return out.CodeBlock([])
-                else:
-                    enter = type(context).__enter__
-                    exit_list.append((context, type(context).__exit__))
-
-                    call_expr = self.subcall(enter, [context], {})
-                    result_statements.append(call_expr)
-
-                    if item.optional_vars is not None:
-                        target = PrepareAst.Target(item.optional_vars, self)
-                        target.unpack(call_expr.result())
-
-                        if first_target is None:
-                            first_target = target
-
             try:
+                for item in items:
+                    context_expr = self.apply(item.context_expr)
+                    result_statements.append(context_expr)
+                    context = context_expr.result()
+
+                    if context is always:
+                        assert (
+                            self._context is ContextType.SEQUENTIAL
+                        ), "cohdl.always can only be used in cohdl.sequential contexts"
+                        assert (
+                            len(items) == 1
+                        ), "with statement containing cohdl.always context can only have a single item"
+                        assert (
+                            item.optional_vars is None
+                        ), "with statement containing cohdl.always can not define a target"
+
+                        always_block = self.convert_always_block(inp.body, inp.lineno)
+
+                        result_statements.append(always_block.code())
+
+                        for stmt in result_statements:
+                            assert (
+                                not stmt.returns()
+                            ), "cannot return from cohdl.always context"
+
+                        self.add_always_expr(out.CodeBlock(result_statements))
+                        return out.CodeBlock([])
+                    else:
+                        enter = type(context).__enter__
+
+                        call_expr = self.subcall(enter, [context], {})
+                        exit_list.append((context, type(context).__exit__))
+                        result_statements.append(call_expr)
+
+                        if item.optional_vars is not None:
+                            target = PrepareAst.Target(item.optional_vars, self)
+                            target.unpack(call_expr.result())
+
+                            if first_target is None:
+                                first_target = target
+
                 result_statements.append(self.apply(inp.body))
             except BaseException as err:
-                # The body is rejected. Leave the context managers that are
-                # evaluated at compile time (std.prefix, StdExceptionHandler, ...),
-                # their __enter__ changed global state that would otherwise
-                # leak into the following compilations.
+                # A later item or the body is rejected. Leave the context managers
+                # entered so far that are evaluated at compile time (std.prefix,
+                # StdExceptionHandler, ...), their __enter__ changed global state
+                # that would otherwise leak into the following compilations.
                 for context, fn in exit_list[::-1]:
                     if _is_intrinsic(fn):
                         try:
